@@ -120,6 +120,9 @@ func genRenderStack(r *rand.Rand, depth int, kind int) V {
 			st.Xs = append(st.Xs, genRenderStack(r, depth-1, k))
 		case r.Intn(5) == 0:
 			st.Xs = append(st.Xs, genRenderCond(r, depth))
+		case r.Intn(14) == 0:
+			// a zero-valued Stack or Condition (native, alias, pointer to alias): invalid, contributes nothing
+			st.Xs = append(st.Xs, V{T: []byte{'Z', 'Y'}[r.Intn(2)], Form: []string{"n", "a", "p"}[r.Intn(3)]})
 		default:
 			st.Xs = append(st.Xs, genRenderLeaf(r))
 		}
